@@ -11,7 +11,7 @@ THEOREMS = [
     "C06.order_irrefl", "C06.order_asymm", "C06.order_trans", "C06.order_weak", "C06.order_total",
     "C06.order_numeric", "C06.order_num_lt_word", "C06.order_prefix",
     "C06.order_split_at_separator", "C06.order_split_skip", "C06.order_split_word", "C06.order_release_lt_master",
-    "C06.order_sorted", "C06.tag_release", "C06.tag_saved_version", "C06.tag_ignored", "C06.match_is_substring",
+    "C06.order_sorted", "C06.tag_release", "C06.tag_saved_version", "C06.tag_unknown_version", "C06.tag_ignored", "C06.match_is_substring",
     "C06.report_branches", "C06.no_nonmatching", "C06.only_matching", "C06.under_minimal_build",
     "C06.exactly_once", "C06.not_merged_exact", "C06.at_most_once", "C06.build_title", "C06.pseudo_title",
     "C06.report_total", "C06.report_total_single",
@@ -28,7 +28,10 @@ RULE = ("random commit graphs (6-16 commits, 8% extra roots, 30% merges incl. oc
         "independently what matches; build numbers with a component 9998/9999/10000 or 8887/8888/8889 (next to the pseudo "
         "builds' numbers; the reply shows what the printed report titles a build); tags are sent as names: build tags of release lines, master-style tags + VERSION "
         "file, and on 25% of the random cases other tags (not build tags: wrong prefix/suffix/no number) and build tags in "
-        "unusual spellings (leading zeros, branch parts that only look like a release line); commit times anywhere in 0..30 days, not tied to the graph (heads older than the "
+        "unusual spellings (leading zeros, branch parts that only look like a release line), job-style tags on commits "
+        "without a version file (unknown version '?.?.n', alone, doubled, or next to a release-style tag of the same commit) "
+        "and a second tag that completes to the build number of ANOTHER commit (renamed job with the same counter, "
+        "zero-padded counter); commit times anywhere in 0..30 days, not tied to the graph (heads older than the "
         "builds of lower-sorted branches by more than a day in ~25% of the cases; the window's edge values; 5% outside the "
         "window: compared with the model, not judged); exhaustive graphs of <=4 commits x 2 branches in thorough. "
         "every history is reported twice by the same ReposCollection (the second answer must equal the first); 400 sequences "
@@ -47,8 +50,8 @@ ASSUMPTIONS = ["no build tag has the number of a pseudo build (9999.9999.9999, 8
                "_OBSOLETE_BRANCH_CUTOFF_PERIOD younger than the head of a release/master branch). Outside it the code drops "
                "branches as obsolete; the model does the same and is compared with the code there, the oracle does not judge",
                "ASCII ref names without whitespace or '+' (int() of a chunk succeeds iff it is a run of decimal digits)",
-               "a build tag that does not name its release line sits on a commit with a version file (otherwise the code carries "
-               "'?' for major and minor, which the model's build numbers do not express; the driver refuses such input)",
+               "build counters and version numbers below 10^18 (the model writes the '?' of an unknown major.minor as that number: "
+               "like the code's '?' it sorts after every real number and equals itself)",
                "fewer than 10^9 report commits (pseudo build ids start at 1_000_000_000)"]
 
 translate = G.translate
@@ -215,7 +218,7 @@ def parse_report(rep):
         builds = []
         for b in (bl.split(";") if bl else []):
             kind, bn, bc, cs = b.split(":")
-            builds.append((kind, tuple(int(x) for x in bn.split(".")), None if bc == "-" else int(bc),
+            builds.append((kind, tuple(x if x == "?" else int(x) for x in bn.split(".")), None if bc == "-" else int(bc),
                            [] if cs == "-" else [int(x) for x in cs.split(",")]))
         out.append((dec_str(n), builds))
     return out
@@ -661,6 +664,13 @@ def tags(case, replies):
         yield "has-merge"
     if any(c.get("xt") for c in h["commits"]):
         yield "has-other-tags"
+    bns = [tuple(bn) for c in h["commits"] for bn in c["t"]]
+    if len(set(bns)) != len(bns):
+        yield "two-commits-with-equal-build-number"
+    if any(bn[0] == "?" for bn in bns):
+        yield "unknown-version-?"
+    if any(len(c["t"]) > 1 and any(bn[0] == "?" for bn in c["t"]) for c in h["commits"]):
+        yield "several-tags-one-unknown"
     ts = [c["ts"] for c in h["commits"]]
     if not in_window(h):
         yield "outside-30-day-window(not judged)"
@@ -697,8 +707,8 @@ LEVEL_NOTE = ("Trusted: Lean kernel (axioms propext, Classical.choice, Quot.soun
               "tag regexes), adapter and mock git objects, "
               "sampled correspondence (random DAGs 3-30 commits, 1-5 refs, times in and around the window, exhaustive <=4 commits x "
               "2 branches in thorough). Tag names are parsed by the model (tag_release, tag_saved_version, tag_ignored: the two "
-              "regular expressions of ProjectRepo, their literal pieces read by the translator); not modelled: the '?' build "
-              "numbers of a master-style tag on a commit without version file. The "
+              "regular expressions of ProjectRepo, their literal pieces read by the translator); tag_unknown_version: a "
+              "master-style tag on a commit without version file gets the code's '?.?.n'). The "
               "theorems assume Hist.Topo (parents have smaller ids); report_total shows that the model always returns a report "
               "when the refs point to existing commits.")
 TECHNIQUE = ("Lean 4: invariants of the two nested DFS (well-formedness, frontier = nearest report ancestors, coverage of "
